@@ -425,9 +425,12 @@ class LocalInjector:
         f = self.current()
         if f is not None and f['target'] == target:
             self.fired += 1
-            cls = {None: OSError, 'PermissionError': PermissionError, 'TimeoutError': TimeoutError, 'ConnectionResetError': ConnectionResetError,
-                   'BlockingIOError': BlockingIOError, 'InterruptedError': InterruptedError}[f.get('exc')]
-            raise cls(errno.EIO, f'injected I/O error at {target}')
+            cls, eno = {None: (OSError, errno.EIO), 'PermissionError': (PermissionError, errno.EACCES), 'TimeoutError': (TimeoutError, errno.ETIMEDOUT),
+                        'ConnectionResetError': (ConnectionResetError, errno.ECONNRESET), 'BlockingIOError': (BlockingIOError, errno.EAGAIN),
+                        'InterruptedError': (InterruptedError, errno.EINTR), 'FileNotFoundError': (FileNotFoundError, errno.ENOENT),
+                        'NotADirectoryError': (NotADirectoryError, errno.ENOTDIR), 'FileExistsError': (FileExistsError, errno.EEXIST),
+                        'EBUSY': (OSError, errno.EBUSY), 'ENOSPC': (OSError, errno.ENOSPC), 'ESTALE': (OSError, errno.ESTALE)}[f.get('exc')]
+            raise cls(eno, f'injected error at {target}')
 
     def mine(self, p):
         return os.fspath(p).startswith(self.root)
@@ -735,9 +738,11 @@ def transport_class_cases(f):
                         cases.append({'backend': backend, 'method': method, 'size': size, 'chunk': c, 'faults': [dict(pos) for _ in range(L)]})
     mt = f['local_max_tries']
     for method in ('upload_stream', 'download_stream', 'upload', 'download', 'delete'):
-        for exc in ('PermissionError', 'TimeoutError', 'ConnectionResetError', 'BlockingIOError', 'InterruptedError'):
+        # (a directory removed by another client's clean() between two steps shows up as ENOENT / ENOTDIR at any later step)
+        for exc in ('PermissionError', 'TimeoutError', 'ConnectionResetError', 'BlockingIOError', 'InterruptedError', 'FileNotFoundError',
+                    'NotADirectoryError', 'FileExistsError', 'EBUSY', 'ENOSPC', 'ESTALE'):
             for t, k in local_targets(method, size, c):
-                for L in (1, mt):
+                for L in (1, mt - 1, mt):
                     cases.append({'backend': 'local', 'method': method, 'size': size, 'chunk': c,
                                   'faults': [{'target': t, 'kind': 'oserror', 'exc': exc, **({'after': k} if k is not None else {})} for _ in range(L)]})
     return cases
